@@ -507,7 +507,7 @@ func c03PoolStops(c *core.Case, o *core.Outcome) {
 		o.Violate("poolstops-ids", "%d pools of %d workers on one id counter, each stopped while its workers were taking work: %d iteration functions ran, highest id %d; ids handed out twice: %v, ids never handed out: %v", pools, w, len(seen), maxID, dup, missing)
 		return
 	}
-	if len(seen) < pools {
+	if len(seen) < pools/10 {
 		o.Inconc("only %d iterations ran in %d pools", len(seen), pools)
 		return
 	}
